@@ -597,6 +597,10 @@ for _pid in ("C06", "C14"):
              H("ZZ_C06_OversizePromotion", params={"LOADING": 1}, reach=["promoted-or-not"], bounds="hybrid loading Get; secondary copy with recorded cost 1..6 (symbolic), MaxSize 2"))
 PROPS["C06"]["level_note"] += " Round 6: wider history menu (Range, loading Gets, entry pool); ZZ_C06_OversizePromotion - the MaxSize rule on the promotion path from the secondary tier."
 PROPS["C15"]["level_note"] += " Round 6: ZZ_C15_FailedSecondaryDelete - failing secondary Delete (the failure schedule now includes Delete, not only Set)."
+_add("C05", "quick", H("ZZ_C05_Conc", params={"PRE": 2}, reach=["drained"], bounds=_cc), H("ZZ_C05_Conc", params={"PRE": 2, "SETUP": 1}, reach=["drained"], bounds="k1 resident beforehand; " + _cc))
+_add("C20", "quick", H("ZZ_C20_BarrierWithBusyShard", params={"PRE": 3}, reach=["barrier-returned", "all-returned"], bounds=_bs, step_limit=200000))
+for _pid in ("C01", "C18"):
+    _add(_pid, "quick", H("ZZ_C01_PoolNoListener", params={"PRE": 2}, reach=["two-more-keys"], bounds=_pn))
 PROPS["C20"]["level_note"] += " Round 6: the executor no longer assumes a queue order among receivers blocked on one unbuffered channel (which of them takes a rendezvous is a scheduling choice); with that ZZ_C20_TwoBarriers found the anonymous wake-up defect repaired in c8a6bbf. ZZ_C20_BarrierWithBusyShard: barrier while a loader holds the victim's shard lock (instruction budget 200000 per path: a retry loop that spins while the loader is not scheduled ends as an unwinding failure)."
 PROPS["C13"]["level_note"] += " Round 6: ZZ_C13_FailedLoadCostFn (cost function only defined on loaded values, failing loader; found the defect repaired in ed1b607), ZZ_C06_Loader and the wider history menu (loading Gets with symbolic loader cost / cost function / TTL) listed here for the admitted-like-a-Set clause."
 PROPS["C04"]["level_note"] += " Round 6: ZZ_C04_AfterLoad - deadlines restored by LoadCache are collected on time by the wheel of the new cache (saved uptime per configuration so that every wheel level is visited; TTL, downtime symbolic)."
